@@ -9,7 +9,7 @@ from core.ctx import REPO
 from . import _c03_expr as X
 
 ID = "C03"
-LEAN_MODULES = ["NiftyVerif.Core.Proto", "NiftyVerif.Model.Expr", "NiftyVerif.Props.C03Ptw", "NiftyVerif.Props.C03"]
+LEAN_MODULES = ["NiftyVerif.Core.Proto", "NiftyVerif.Model.Expr", "NiftyVerif.Model.ExprIO", "NiftyVerif.Props.C03Ptw", "NiftyVerif.Props.C03"]
 DRIVER = "Driver/C03.lean"
 TRANSLATORS = [t2_pointwise.translate]
 _PTW = ["sqrt", "sin", "cos", "tan", "exp", "expm1", "log", "log10", "log1p", "sinh", "cosh", "tanh", "sigmoid",
@@ -19,7 +19,7 @@ OBLIGATIONS = (["NiftyVerif.C03.ptw_hval_eq_val"] + ["NiftyVerif.C03.ptw_hasDeri
                + ["NiftyVerif.C03.ptw_kink_abs", "NiftyVerif.C03.ptw_kink_clip", "NiftyVerif.C03.ptw_kink_sinc",
                   "NiftyVerif.C03.ptw_table_hasDerivAt", "NiftyVerif.C03.lin_val", "NiftyVerif.C03.lin_hasDerivAt",
                   "NiftyVerif.C03.metric_carried", "NiftyVerif.C03.metric_gauss", "NiftyVerif.C03.metric_sum",
-                  "NiftyVerif.C03.metric_sum_none"])
+                  "NiftyVerif.C03.metric_sum_none", "NiftyVerif.C03.metric_scale"])
 RULE = ("(1) T2: every ptw_dict entry on a float grid over its valid range incl. kinks (value, helper value, derivative) "
         "vs the regenerated Lean definitions; (2) generated operator trees (<=16 nodes; var/add/sub/mul/scale/addc/mulc/"
         "ptw/lin/sum/vdot/getKey/putKey/chain/sqnorm/quad/gauss) over single and multi-domains, dyadic inputs, "
@@ -276,6 +276,25 @@ def expected_metric(b, t, x, din):
     if k == "add":
         ma, mb = expected_metric(b, t["a"], x, din), expected_metric(b, t["b"], x, din)
         return None if (ma is None or mb is None) else ma + mb
+    if k == "scale" and t["c"] >= 0:
+        ma = expected_metric(b, t["a"], x, din)
+        return None if ma is None else t["c"] * ma
+    if k == "chain":
+        with quiet():
+            g = b.build(t["g"])
+            dg = X.op_indom(b, g)
+            rg = X.linearize(b, g, X.dom(t["g"]), x, False)
+        gd = X.dom(t["g"])
+        x2, o = {}, 0
+        for key, n in X.flat_dom(gd):
+            x2[key] = rg["val"][o:o + X.nent(n)]
+            o += X.nent(n)
+        inner = X.Builder(gd, b.space)
+        mf = expected_metric(inner, t["f"], x2, gd)
+        if mf is None:
+            return None
+        Jg = embed_cols(rg["jac"], dg, din)
+        return Jg.T @ mf @ Jg
     return None
 
 
